@@ -100,6 +100,7 @@ func main() {
 	// kernel is a hang of the code under test (or harness trouble).
 	var cur atomic.Pointer[harness.Failure]
 	var tick atomic.Int64
+	kern.RunHook = func() { tick.Add(1) }
 	go func() {
 		last, lastAt := int64(-1), time.Now()
 		for {
@@ -111,7 +112,7 @@ func main() {
 			}
 			if time.Since(lastAt).Seconds() > *evalTimeout {
 				if f := cur.Load(); f != nil {
-					f.V = harness.Violation{Oracle: "terminates", Class: "hang", Message: fmt.Sprintf("evaluation did not finish within %.0f s of wall-clock time", *evalTimeout)}
+					f.V = harness.Violation{Oracle: "terminates", Class: "hang", Message: fmt.Sprintf("a simulated run did not finish within %.0f s of wall-clock time without entering the kernel", *evalTimeout)}
 					rep.Hang = f
 				}
 				rep.WallS = time.Since(start).Seconds()
